@@ -899,13 +899,19 @@ def core_cases():
     P = pools()
     seen = set()
     natural = [(("data", i), r[2]) for i, r in enumerate(P["data"]) if not r[1]]
+    thin = {}
     for i, r in enumerate(P["engine"]):
+        # engine receivers: every name through the syntactic primitives (dot, subscript), a fifth of the dunder
+        # names through the other primitives
         dunder = [n for n in r[3] if n.startswith("__") and n.endswith("__")]
-        natural.append((("engine", i), [n for n in r[3] if n not in dunder] + dunder[i % 5::5]))
+        natural.append((("engine", i), r[3]))
+        thin[("engine", i)] = set(dunder) - set(dunder[i % 5::5])
     k = 0
     for recv, pool in natural:
         for name in pool:
             for primname in PRIM_NAMES:
+                if primname not in ("dot", "sub") and name in thin.get(recv, ()):
+                    continue
                 if recv[0] == "engine" and PRIMS[primname][2]:
                     continue
                 if PRIMS[primname][1] == "opaque" and name not in TRACER_NAMES:
@@ -1224,7 +1230,11 @@ def build_call_case(env, is_async, ckey, pkey, akey, rkey):
         # a block is rendered where it stands whatever encloses it at run time only for `if`;
         # keep block-defining paths unwrapped
         rkey = "plain"
-    wrap, reached = REACH[rkey]
+    # rkey may name two nested wrappers "outer+inner": reached iff both let control through
+    wrap, reached = "@P@", True
+    for rk in rkey.split("+"):
+        w_, r_ = REACH[rk]
+        wrap, reached = wrap.replace("@P@", w_), reached and r_
     body = wrap.replace("@P@", path)
     if pkey in _TOPLEVEL_ONLY:
         src = body.replace("{% block body %}", "{% block body %}{{ sfn('pre') }}").replace("{% endblock %}", "{{ sfn('post') }}{% endblock %}")
@@ -1252,12 +1262,15 @@ def call_core_cases():
 
 
 def call_full_cases():
-    """The complete product path x callable x argument shape x wrapper x environment (thorough tier)."""
+    """The complete product path x callable x argument shape x (one or two nested wrappers) x environment
+    (thorough tier)."""
     seen = set()
+    rks = sorted(REACH)
+    wrappers = rks + [a + "+" + b for a in rks for b in rks if a != "plain" and b != "plain"]
     for p in sorted(CALL_PATHS):
         for c in sorted(CALLABLES):
             for a in range(len(ARGS)):
-                for r in sorted(REACH):
+                for r in wrappers:
                     for env, is_async in CALL_ENVS:
                         case = build_call_case(env, is_async, c, p, a, r)
                         key = (case["src"], env, is_async)
